@@ -34,7 +34,7 @@ def harness_table(mt, update=True):
 
     columns = {}
     for i, (name, tname) in enumerate(mt.columns):
-        dtype = ir.pytype(tname)
+        dtype = tname if isinstance(tname, type) else ir.pytype(tname)
 
         def make(i=i, dtype=dtype, name=name):
             class Col(query_compile.EvalColumn):
